@@ -15,7 +15,7 @@ import shutil
 import stat
 import time
 from collections import defaultdict
-from collections.abc import AsyncIterator
+from collections.abc import AsyncIterator, Iterable
 from copy import copy
 from datetime import datetime
 from email.message import EmailMessage
@@ -1627,13 +1627,24 @@ class Mailbox:
     #
     # Need to better define when we should lock the folder, too.
     #
-    def set_sequences_in_folder(self, seqs: Sequences) -> None:
+    def set_sequences_in_folder(
+        self, seqs: Sequences, forget: Iterable[int] = ()
+    ) -> None:
         """
         Convert the dict of sets to a dict of lists and set the sequences
         in the underlying MH folder.
 
+        `seqs` only knows the messages we have taken in. A message that an MH
+        tool has delivered since our last resync is in the folder's
+        `.mh_sequences` (in `unseen`, usually) but not in `seqs`; writing
+        `seqs` as it is would make that message `\\Seen` before anyone has
+        looked at it. Such messages have numbers above every number we know,
+        so what the folder says about those numbers is kept - except for the
+        numbers in `forget` (messages we have just removed ourselves).
+
         Keyword Arguments:
         seqs: Sequences --
+        forget: message numbers that are not to be kept from the folder
         """
         # XXX the assertion is while we are testing to make sure we always have
         #     the lock acquired. This routine is synchronous so it does not
@@ -1641,7 +1652,14 @@ class Mailbox:
         #     during any asyncio process where we want to guarantee writership.
         #
         assert self.mh_sequences_lock.locked()
-        self.mailbox.set_sequences({k: list(v) for k, v in seqs.items()})
+        out = {k: set(v) for k, v in seqs.items()}
+        highest = self.msg_keys[-1] if self.msg_keys else 0
+        dropped = set(forget)
+        for name, keys in self.mailbox.get_sequences().items():
+            newer = {k for k in keys if k > highest and k not in dropped}
+            if newer:
+                out.setdefault(name, set()).update(newer)
+        self.mailbox.set_sequences({k: list(v) for k, v in out.items()})
 
     ##################################################################
     #
@@ -2272,7 +2290,7 @@ class Mailbox:
         # later delivered under a freed message number inherits their flags.
         #
         async with self.mh_sequences_lock, self.mailbox.lock_folder():
-            self.set_sequences_in_folder(self.sequences)
+            self.set_sequences_in_folder(self.sequences, forget=to_delete)
 
         self.num_recent = len(self.sequences["Recent"])
         await self.commit_to_db()
